@@ -461,6 +461,13 @@ impl<'a> Interpreter<'a> {
                             }
                             self.no_clock_while_folding(&name, args.len())?;
 
+                            // a receiver that failed is the result of the call, like a
+                            // failing argument: has(unbound.size()) is about `unbound`
+                            if let CelValue::Err(err) = value {
+                                stack.push_val(self.failed_argument(err)?);
+                                continue;
+                            }
+
                             match callable {
                                 RsCallable::Function(func) => match self.resolve_args(args) {
                                     Ok(arg_values) => stack.push_val(func(value, arg_values)),
